@@ -64,6 +64,8 @@ def _dec_opts(rng, kind):
         return {"regime": rng.choice(["sum_product", "min_sum"])}
     if kind == "bp_polar":
         return {"iters": rng.choice([10, 20]), "regime": rng.choice(["sum_product", "min_sum"])}
+    if kind == "ml" and rng.random() < 0.3:
+        return {"precompute": False}  # the documented low-memory mode: the codebook is generated on demand
     return {}
 
 
